@@ -10,7 +10,19 @@ def bump(limbs):
     return l
 
 
+def bump_fm_balance(e):
+    b = e["post"]["bal"]["fm"]
+    d = sorted(b.keys())[0]
+    for k in sorted(b.keys()):
+        if b[k]:
+            d = k
+            break
+    b[d] = bump(b[d])
+
+
 RULES = {
+    "farm": [("fm_pos_create", lambda e: e.get("ok"), bump_fm_balance, "post.bal.fm[denom] +- 1 after a position creation"),
+             ("fm_claim", lambda e: e.get("ok"), bump_fm_balance, "post.bal.fm[denom] +- 1 after a claim")],
     # family -> list of (event kind, predicate, mutator, description)
     "epoch": [("q_epoch", lambda e: e.get("ok"), lambda e: e.__setitem__("id", bump(e["id"])), "q_epoch.id + 1")],
 }
